@@ -7,94 +7,94 @@ base = json.load(open("/root/.vp/BASELINE.json"))
 
 NOTE = ("Trusted: Coq 8.16.1 kernel + vm_compute; the hand-written model (coq/Model) is tied to /repo by a sampled "
         "correspondence check (Go harness built with -tags verif from /repo's working tree, .v emitter, Corr/*.v); "
-        "badger, BLS, Go runtime. See DESIGN.md section 7.")
+        "badger, BLS, Go runtime. See DESIGN.md I.8.")
 TECH = ("Rocq/Coq theorem over a hand-written executable model (invariants by induction / refinement / algebra) "
         "+ step-wise differential correspondence check of the model against the real code")
 
 CLAIMS = {
     "C01": ("Theorem C01_no_slashable_attestation (unbounded histories, all uint64 epochs, all fault schedules) on the model; step-wise "
             "correspondence of the model's step with the real signer service on generated histories plus a region sweep of the rule kernel; "
-            "independent slashability monitor on the implementation's own signatures", "5 C01"),
-    "C02": ("Theorem C02_no_double_proposal on the model; same correspondence and monitor for proposals", "5 C02"),
+            "independent slashability monitor on the implementation's own signatures", "I.4 C01"),
+    "C02": ("Theorem C02_no_double_proposal on the model; same correspondence and monitor for proposals", "I.4 C02"),
     "C03": ("Theorem C03_crash_safety_partial: with synchronous writes and write-before-sign, for every history of requests each with a "
             "fate (completes / killed before the write returned / killed after it with any subset of the Sign calls done / killed after the "
             "reply) and restarts, released duties stay ordered and the durable store dominates them; refutations without either mechanism. "
             "PARTIAL: durability of a returned badger commit and fsync are trusted. Correspondence: hook event order, store contents at the "
             "moment Sign is invoked, the SyncWrites option of the open store, and kill runs of a child process at every hook point of "
-            "short histories compared with the model", "5 C03"),
+            "short histories compared with the model", "I.4 C03"),
     "C04": ("Theorems C04_serializable (every reachable, completed world of the lock protocol - any number of requests, key lists and "
             "interleavings - is a serial execution in commit order with exactly the returned verdicts and the reached store) and "
             "C04_realtime_order; refutation for first-key-only locking. PARTIAL: sync.Mutex / sync.Map / memory model trusted. "
             "Correspondence: recording locker + store hooks give the real-time event order of steered concurrent runs, which the model "
-            "must accept as a schedule with the observed verdicts and store; per-request protocol conformance; rivals / lost-update monitor", "5 C04"),
+            "must accept as a schedule with the observed verdicts and store; per-request protocol conformance; rivals / lost-update monitor", "I.4 C04"),
     "C05": ("Theorem C05_domain_separation (all domains of any length via their first four bytes, all admin lists and source addresses, all "
             "fault schedules) on the model; correspondence over every endpoint x prefix class x admin list x source address against the real "
-            "signer service; independent monitor of the property on the observed signatures", "5 C05"),
+            "signer service; independent monitor of the property on the observed signatures", "I.4 C05"),
     "C06": ("Theorem C06_fail_closed (biconditional for every request and every fault schedule, no signature at a faulted position, store "
             "faults fail every position) on the model; exact correspondence under exhaustive single-fault enumeration and random multi-fault "
-            "schedules; biconditional monitored at service and gRPC-handler level", "5 C06"),
+            "schedules; biconditional monitored at service and gRPC-handler level", "I.4 C06"),
     "C09": ("Theorems C09_advancing_attestation_signed / _proposal_signed (liveness over all well-formed histories), C09_batch_equals_singles "
             "(every batch length), C09_scatter_partition (every n, p) on the model; liveness-direction correspondence, twin-instance "
-            "batch-vs-singles runs over sizes x GOMAXPROCS, util.Scatter vs the model's extents", "5 C09"),
+            "batch-vs-singles runs over sizes x GOMAXPROCS, util.Scatter vs the model's extents", "I.4 C09"),
     "C10": ("Theorems C10_import_step, C10_wrong_metadata_rejected, C10_history (any interleaving of signing requests and imports), "
             "C10_dominated_is_refused on the model of the repaired import; exact correspondence with the real dirk binary's "
             "--import-slashing-protection on generated (database, file) pairs and import sequences; probes of the real rules service at every "
-            "imported and prior value", "5 C10"),
+            "imported and prior value", "I.4 C10"),
     "C11": ("Theorems C11_export_faithful (the exported record is exactly the highest signed slot / source / target, for every well-formed "
             "history), C11_export_import_same_decisions (export -> import into an empty instance preserves every record, and equal records "
             "answer every later history identically), C11_restart_identity, C11_codec (record format round trip for all int64 values; legacy "
             "records through a gob oracle); correspondence on raw record bytes, the real binary's export and import, identical probes on "
-            "original and re-imported stores, restart, and legacy records produced by Go's gob encoder", "5 C11"),
+            "original and re-imported stores, restart, and legacy records produced by Go's gob encoder", "I.4 C11"),
     "C07": ("Theorems C07_check_spec (the loop-shaped permission check equals its declarative first-bearing-item specification), "
             "C07_whole_name_match (for every pattern of the modelled syntax and every name the repaired anchoring is a whole-name, "
             "case-insensitive match; derivative matcher = relational semantics = textbook language), "
             "C07_services_decide_on_resolved_account (signer, account and wallet management, creation); correspondence of Check() on "
-            "grammar-generated permission configurations, of signer requests by name and by key, and of the managers' results", "5 C07"),
+            "grammar-generated permission configurations, of signer requests by name and by key, and of the managers' results", "I.4 C07"),
     "C08": ("Theorems C08_single_requests, C08_batches_aligned (exactly one entry per request; the signature at position i is by the account "
             "request i resolves to over exactly request i's fields, for every batch length and fault schedule), C08_signature_verifies (for "
             "any scheme with verify(sign)=true), C08_scatter_fills_every_index (every n, p); the signing root is computed by the model "
             "(SSZ over SHA-256 on primitive integers) and compared with the root under which the real BLS library verifies the returned "
-            "signature for the addressed account; batches over sizes x GOMAXPROCS with every position verified", "5 C08"),
+            "signature for the addressed account; batches over sizes x GOMAXPROCS with every position verified", "I.4 C08"),
     "C15": ("Theorems C15_progress (in every reachable world with an unfinished request some thread can step) and C15_terminates (every "
             "accepted schedule is bounded by 3 x keys + 4 steps per request and a stuck world is a finished one); refutation without the "
             "locker-wide mutex ((a,b)/(b,a) deadlock). Correspondence as C04 with opposite-order batches and steered lock acquisition, plus "
-            "sustained load under a watchdog", "5 C15"),
+            "sustained load under a watchdog", "I.4 C15"),
     "C12": ("Theorems C12_threshold_bounds (generation is refused unless n/2 < t <= n), C12_success_is_consistent (a generation that reports "
             "success - over any network behaviour - left every participant with the account, the returned composite key as its vector's first "
             "entry, a share consistent with that vector, the requested threshold, no open generation), and in mathcomp over an arbitrary field "
             "C12_algebra / C12_threshold_signature (any t participants' shares or partial signatures recover the aggregate secret / signature; "
             "every share passes the Feldman check against the aggregate vector) and C12_fewer_shares_reveal_nothing. PARTIAL: see "
             "Properties/C12.v. Correspondence: real clusters, every (n, t) in and out of range, initiators, commit-reply orders; the model is "
-            "run on the recovered dealt polynomials; every t- and (t-1)-subset is combined with the real BLS library; sign and list at once", "5 C12"),
+            "run on the recovered dealt polynomials; every t- and (t-1)-subset is combined with the real BLS library; sign and list at once", "I.4 C12"),
     "C13": ("Theorems C13_invalid_contribution_rejected, C13_failed_exchange_creates_no_account + C13_exchange_fails (any lost / refused "
             "prepare or execute, any lost, error or rejected swap, for every network behaviour: error, and every instance's accounts "
             "unchanged), C13_no_crash (no behaviour of the network reaches the out-of-range index); refutation for the pinned receiving side "
             "(F4, fixed). Correspondence: real clusters, every message position x fault kind for every permitted (n, t); error, wallets and "
-            "panics compared with the model run on the same polynomials and altered messages", "5 C13"),
+            "panics compared with the model run on the same polynomials and altered messages", "I.4 C13"),
     "C14": ("Theorem C14_conflicting_duties_one_threshold: for every (n, t) key generation accepts, every cluster of n instances (any "
             "configurations and prior stores), every routing / repetition / order of requests and every pair of conflicting duties, no t "
             "instances signed one while t instances signed the other (per-instance C01/C02 + quorum intersection); refutation without the "
             "majority rule. Correspondence: real clusters after a real key generation, conflicting duties routed to arbitrary subsets; "
-            "per-instance steps against the C01/C02 model and a cluster monitor that counts valid partial signatures per duty", "5 C14"),
+            "per-instance steps against the C01/C02 model and a cluster monitor that counts valid partial signatures per duty", "I.4 C14"),
     "C16": ("Theorems C16_only_peers, C16_stranger_refused, C16_peer_honoured, C16_strangers_change_nothing (over every history, deleting "
             "the messages of non-peers changes neither the final table and accounts nor any reply to a peer), C16_share_goes_to_its_owner; "
             "correspondence at the real receiver handlers over caller identities x five messages x session states; share ownership checked "
-            "with the BLS library for every (replier, caller) pair", "5 C16"),
+            "with the BLS library for every (replier, caller) pair", "I.4 C16"),
     "C17": ("Theorems C17_one_session_per_name, C17_prepare_while_active, C17_refused_without_session, C17_commit_needs_everyone, "
             "C17_gone_afterwards, C17_new_generation_may_start over every event sequence of the session-table model (logical clock); "
             "correspondence after every event of generated sequences on a real instance with cooperating real peers and real expiry: reply "
-            "class, generation table, wallet contents; the lifecycle is also judged directly on the implementation's table", "5 C17"),
+            "class, generation table, wallet contents; the lifecycle is also judged directly on the implementation's table", "I.4 C17"),
     "C18": ("Theorems C18_listing_sound_and_complete (membership in the answer <=> requested known wallet, account present in base or "
             "overlay, name matches, Access permitted), C18_wallet_accounts, C18_created_account_listed; correspondence of the real lister "
             "(service and gRPC handler) as a multiset, before and after dynamic account creation; soundness and completeness also "
-            "monitored with the real checker", "5 C18"),
+            "monitored with the real checker", "I.4 C18"),
     "C19": ("Theorems C19_gate (with client certificates required and verified against the configured pool and TLS 1.3 minimum, a request "
             "reaches any handler only from a caller presenting a certificate that verifies against the configured authority, and the name given "
             "to permission checks is that certificate's common name), C19_identity_is_verified, C19_authentic_callers_served; every weaker "
             "crypto/tls client-authentication mode refuted, two of them with a forged identity. PARTIAL by nature: crypto/tls, x509 and gRPC "
             "are trusted. Correspondence: the full method x credential matrix over real TLS connections to a daemon from testing/daemon.New "
             "(no TLS, no certificate, self-signed, another authority with a permitted / peer name, valid clients, peer, non-peer, TLS 1.2, "
-            "expired, server-use-only, fresh valid); nothing of value to refused callers; identity probes", "5 C19"),
+            "expired, server-use-only, fresh valid); nothing of value to refused callers; identity probes", "I.4 C19"),
     "C20": ("Theorems C20_decoder_capacity, C20_no_panic (for every Signer request that came out of the protobuf decoder - any field absent "
             "or of any length, any numbers, batches of any length, any names and keys - and every configuration, store and caller, the "
             "handler path reaches no panicking operation: per-position response arrays, the capacity-bounded Domain[0:4] of the rules layer), "
@@ -102,7 +102,7 @@ CLAIMS = {
             "wire's capacity guarantee is flagged, confirmed on the real rules service. PARTIAL: Lister / AccountManager / WalletManager "
             "paths, library panics, goroutine effects and resource exhaustion are covered by the harness run only. Correspondence: "
             "schema-driven requests (mostly-valid and malformed streams) through a protobuf round trip into the real handlers under a "
-            "recovering wrapper; states, signature presence, stores and decoded capacities compared with the model; liveness probe", "5 C20"),
+            "recovering wrapper; states, signature presence, stores and decoded capacities compared with the model; liveness probe", "I.4 C20"),
 }
 
 
@@ -132,7 +132,7 @@ def main():
                 "evidence_file": f"evidence/{pid}.json", "replay_cmd_template": f"bin/check {pid} --replay {{path}}", "engine": "coq-model",
                 "level_claimed": {"category": "proof", "text": txt, "design_ref": ref}, "level_note": NOTE, "technique": TECH})
         else:
-            man["not_applicable"].append({"property_id": pid, "reason": "check not built yet in this revision (planned, see DESIGN.md section 5)"})
+            man["not_applicable"].append({"property_id": pid, "reason": "check not built yet in this revision (see DESIGN.md)"})
     json.dump(man, open(os.path.join(VERIF, "MANIFEST.json"), "w"), indent=1)
 
 
